@@ -69,6 +69,7 @@ SETS = {
     's': dict(tag='t', variants=(VX, VY, VZ), adj=('t', 'c')),
     'i': dict(tag='k', variants=(W1, W2), adj=('k', 'v')),
     'm': dict(tag='k', variants=(W1, WS), adj=('k', 'v')),      # tags of mixed kind: 1 and 's'
+    'a': dict(tag='t', variants=(VX, VY, VZ), adj=('type', 'data')),   # the union and tag of 's' under a SECOND adjacent key pair
 }
 LAYOUTS = {'int': False, 'ext': True, 'adj': None}
 CONV = {}
@@ -90,7 +91,7 @@ for (_ln, _ext) in LAYOUTS.items():
 
 def tag_of(sn, tk):
     """tag kinds per variant set; 1..3 are (or would be) declared tags, the rest foreign / ill-kinded"""
-    if sn == 's' or sn == 'h' or sn == 'c':
+    if sn == 's' or sn == 'h' or sn == 'c' or sn == 'a':
         if tk == 1:
             return 'x' if sn != 'h' else 'hb'
         elif tk == 2:
@@ -128,7 +129,7 @@ def tag_of(sn, tk):
 
 def variant_of(sn, tk):
     """the variant class whose DECLARED tag equals tag kind tk, else None (reference: the class definitions above)"""
-    if sn == 's' or sn == 'c':
+    if sn == 's' or sn == 'c' or sn == 'a':
         if tk == 1:
             return VX
         elif tk == 2:
@@ -308,6 +309,8 @@ _PRE = {
 }
 for _sn in SETS:
     for _ln in LAYOUTS:
+        if _sn == 'a' and _ln != 'adj':
+            continue
         exec(_T.format(sn=_sn, ln=_ln, sig=_SIG, args=_ARGS, pre=_PRE[_ln],
                        tiers=('quick', 'thorough')))
 
